@@ -136,7 +136,10 @@ def replay_image(beh, fmt):
         out.append(("C15:%s:load:raises:%s" % (fmt, type(ex).__name__), "load_program raised %r" % (ex,)))
         return out
     if task is None:
-        out.append(("C15:%s:load:none" % fmt, "load_program returned no task for a loadable image"))
+        key = "C15:%s:load:none" % fmt
+        if fmt == "macho" and not any(c14.dval(c["cmd"]) == 0xC for c in exp["cmds"]):
+            key += ":no-dylib"
+        out.append((key, "load_program returned no task for a loadable image"))
         return out
     try:
         compare_image(task, beh["image"], out, fmt)
@@ -169,6 +172,8 @@ def replay_image_chunk(args):
     c14.quiet()
     res = {"n": 0, "fails": [], "sigs": set(), "sample": None}
     for beh in tlc.iter_spool_range(spool, lo, hi):
+        if fmt == "macho" and not beh["is64"]:
+            continue                      # only the x86-64 Mach-O loader exists: 32-bit images are not accepted inputs
         res["n"] += 1
         seen = set()
         for key, what in replay_image(beh, fmt):
@@ -271,3 +276,11 @@ def replay_chunk(args):
                              "entry": beh["entry"], "atentry": beh["atentry"]}
     set_pagesize(4096)
     return res
+
+
+def replay_pe_chunk(args):
+    return replay_image_chunk(tuple(args) + ("pe",))
+
+
+def replay_macho_chunk(args):
+    return replay_image_chunk(tuple(args) + ("macho",))
